@@ -15,6 +15,9 @@
     pullcov <same arguments as pull>
       -> the branch tags of the model's run of that history (Model/RegistryCov.lean `historyTags`), space separated;
          used by the check to count which branches of the model the generator reached
+    pushm <cfgToo 0|1> <hasCfg 0|1> <nblobs> {scripts as for push; the last one is the config's when hasCfg} <nsched> {k}* <nman> {..}
+      (Registry.Push of a manifest with a config blob; cfgToo: the tree offers the config to the registry (F30 repaired))
+      -> as push
     hpull <thr> <limit|-1> <linkShortcut> <verify> <staged> <nattempts> {attempt}*   (Local.handlePull's loop; the
       scripts are consumed one per Pull; when they run out while the loop still retries, the client goes away)
       -> "res=<ok|err:cls|clientGone> success=<true|false> attempts=<k> link=<manifest id|none>"
@@ -232,6 +235,20 @@ def handle (toks : List String) : Option String :=
       let sched ← listOf nat
       let man ← listOf pResp
       pure (match pushTrace ups sched man with
+        | none => "bad-schedule"
+        | some (tr, ok) => s!"{joinWith " " (tr.map showPushEv)} res={if ok then "ok" else "err"}")) rest
+  | "pushm" :: rest =>
+    runTP (do
+      let cfgToo ← pBool
+      let hasCfg ← pBool
+      let ups ← listOf pUp
+      let sched ← listOf nat
+      let man ← listOf pResp
+      -- the manifest: one dummy layer per script; the last one is the config when `hasCfg`
+      let nl := if hasCfg then ups.length - 1 else ups.length
+      let layers : List (Layer Dg) := (List.range nl).map fun i => ⟨[UInt8.ofNat i], 0⟩
+      let m : Manifest Dg := ⟨0, 0, layers, if hasCfg then some ⟨[UInt8.ofNat nl], 0⟩ else none⟩
+      pure (match pushManifest cfgToo m ups sched man with
         | none => "bad-schedule"
         | some (tr, ok) => s!"{joinWith " " (tr.map showPushEv)} res={if ok then "ok" else "err"}")) rest
   | ["canretry", "ok"] => some (if canRetry .ok then "1" else "0")
